@@ -9,7 +9,7 @@ use refimpl::ntlm;
 use serde::{Deserialize, Serialize};
 
 pub const LEVEL: &str = "fault_enumeration";
-pub const RULE: &str = "case = (credential set and connector configuration with NLA on, server certificate key in {RSA-2048 CA-signed, RSA-2048, RSA-3072, P-256}, reply strategy for the final CredSSP round). Strategies: honest; every single-bit flip of the honest TSRequest (bitflips section: every bit for the P-256 key and every third bit for RSA-2048 in quick, every bit for all four keys in thorough); key + k for k in {0, 2, 255, 256, 65536, ...}, key - 1, big-endian + 1, + 1 on the last byte; sealed under an unknown session key; sealed with the client-to-server keys; wrong signing key only; key + 1 of another certificate; the client's own token reflected; every truncation length; bytes appended inside the token / after the DER; BER re-encoding; advanced cipher state; wrong sequence number; garbage; random token; key + 1 followed or preceded by extra bytes under a valid seal; constant ('dummy') checksum; ciphertext of another certificate's key + 1 obtained by xor with a zeroed checksum. One case in five (and a list in the enumerated section) uses a CHALLENGE that lacks some of the flags the client asked for (SIGN, SEAL, KEY_EXCH, ALWAYS_SIGN, ESS, 128 ...): the client may refuse it early, but must not release credentials without the proof. Each reply is classified by the reference server itself (lenient decode + unseal with the true keys): if it still yields key + 1 under a valid signature nothing is asserted; otherwise Connector::connect must return Err and the server, reading to EOF, must receive zero application bytes after the AUTHENTICATE message. For the honest reply the next message must be a TSRequest whose authInfo unseals. Non-trivial = the handshake reached the final round and the reply is not 'still honest'; distinct by hash of the case.";
+pub const RULE: &str = "case = (credential set and connector configuration with NLA on, server certificate key in {RSA-2048 CA-signed, RSA-2048, RSA-3072, P-256}, reply strategy for the final CredSSP round). Strategies: honest; every single-bit flip of the honest TSRequest (bitflips section: every bit for the P-256 key and every third bit for RSA-2048 in quick, every bit for all four keys in thorough); key + k for k in {0, 2, 255, 256, 65536, ...}, key - 1, big-endian + 1, + 1 on the last byte; sealed under an unknown session key; sealed with the client-to-server keys; wrong signing key only; key + 1 of another certificate; the client's own token reflected; every truncation length; bytes appended inside the token / after the DER; BER re-encoding; advanced cipher state; wrong sequence number; garbage; random token; key + 1 followed or preceded by extra bytes under a valid seal; constant ('dummy') checksum; ciphertext of another certificate's key + 1 obtained by xor with a zeroed checksum. With the CA-signed identity certificate checking is switched on in most cases (a validated certificate does not replace the key binding). One case in five (and a list in the enumerated section) uses a CHALLENGE that lacks some of the flags the client asked for (SIGN, SEAL, KEY_EXCH, ALWAYS_SIGN, ESS, 128 ...): the client may refuse it early, but must not release credentials without the proof. Each reply is classified by the reference server itself (lenient decode + unseal with the true keys): if it still yields key + 1 under a valid signature nothing is asserted; otherwise Connector::connect must return Err and the server, reading to EOF, must receive zero application bytes after the AUTHENTICATE message. For the honest reply the next message must be a TSRequest whose authInfo unseals. Non-trivial = the handshake reached the final round and the reply is not 'still honest'; distinct by hash of the case.";
 
 #[derive(Serialize, Deserialize, Hash, Clone, Debug)]
 pub struct Case {
@@ -46,6 +46,9 @@ pub fn run(c: &Case) -> Outcome {
     let std_flags = c.base.challenge.flags & ntlm::MANDATORY == ntlm::MANDATORY;
     if !std_flags {
         out.label("reduced-flags");
+    }
+    if c.base.cfg.check_certificate {
+        out.label("certificate-checked");
     }
     out.label(class);
     if run.client_timeout || run.report.timeout {
@@ -129,6 +132,11 @@ fn gen_base(s: &mut Src, identity: Option<u8>) -> C17Case {
         check_certificate: false,
     };
     let identity = identity.unwrap_or_else(|| s.below(4) as u8);
+    // certificate checking on, against the CA-signed identity (the TLS layer accepts it; the CredSSP binding must still be checked)
+    let mut cfg = cfg;
+    if identity == 0 && s.chance(180) {
+        cfg.check_certificate = true;
+    }
     // a server that does not echo every flag the client asked for (no signing, no sealing, no key exchange ...):
     // whatever the client makes of it, it must not release credentials without the proof
     if s.chance(56) {
@@ -138,7 +146,7 @@ fn gen_base(s: &mut Src, identity: Option<u8>) -> C17Case {
             }
         }
     }
-    C17Case { cfg, identity, challenge, user_id: 1004 }
+    C17Case { cfg, identity, challenge, user_id: 1004, previous: None }
 }
 
 pub fn decode(s: &mut Src) -> Case {
@@ -229,6 +237,16 @@ fn sweep(tier: Tier, part: usize, parts: usize) -> impl Iterator<Item = Case> {
                 v.push(Case { base: b, reply: r });
             }
         }
+        // certificate checking on with the CA-signed identity: every kind of reply once
+        if id != 0 {
+            let mut b0 = gen_base(&mut Src::new(&seed), Some(0));
+            b0.cfg.restricted_admin = false;
+            b0.cfg.blank_creds = false;
+            b0.cfg.check_certificate = true;
+            for r in [FinalReply::Honest, FinalReply::Offset(0), FinalReply::Offset(2), FinalReply::Offset(256), FinalReply::MinusOne, FinalReply::BigEndianPlusOne, FinalReply::LastBytePlusOne, FinalReply::WrongDirection, FinalReply::WrongSignKey, FinalReply::OtherCert, FinalReply::Reflect, FinalReply::WrongSeq(1), FinalReply::AdvancedRc4(0), FinalReply::PlainSuffix(vec![1]), FinalReply::PlainPrefix(vec![0]), FinalReply::ConstChecksum(0), FinalReply::RelayedXor, FinalReply::WrongSessionKey(vec![7; 16]), FinalReply::Truncate(40), FinalReply::BitFlip(300)] {
+                v.push(Case { base: b0.clone(), reply: r });
+            }
+        }
         for r in [FinalReply::Honest, FinalReply::MinusOne, FinalReply::BigEndianPlusOne, FinalReply::LastBytePlusOne, FinalReply::WrongDirection, FinalReply::WrongSignKey, FinalReply::OtherCert, FinalReply::Reflect, FinalReply::WrongSeq(1), FinalReply::AdvancedRc4(0)] {
             v.push(Case { base: base.clone(), reply: r });
         }
@@ -245,4 +263,5 @@ pub fn check(rep: &Report) {
     rep.random("replies", rep.tier.n(3_000, 60_000), 200, decode, run);
     rep.require("replies", "must-refuse", 800);
     rep.require("replies", "honest", 50);
+    rep.require("replies", "certificate-checked", 100);
 }
